@@ -53,15 +53,17 @@ Halves == {NV(0 - 1, 2), NV(1, 2), NV(3, 2)}
 NumGrid(t) == {v \in {NV(i, 1) : i \in (0 - 2)..3} \cup (IF t.k = "real" THEN Halves ELSE {}) : InB(t, v)}
 DomVals(t) == IF t.k \in {"bool", "user"} THEN ValsOfType(Prob, t) ELSE NumGrid(t)
 Static == StaticNames(Prob)
-KeyDom(i, rel, V) ==
-   LET f == Keys[i][1] IN
-   IF f \notin rel \/ (V = "P" /\ f \in Static) THEN {InitOf(Prob, Keys[i])}
-   ELSE DomVals(Fl(Prob, f).type)
+\* only the ground fluents of the fluents that occur are valuated: the evaluation context is the
+\* problem with the relevant keys, a state is the vector of their values
+RelKeys(rel) == SelectSeq(Keys, LAMBDA k : k[1] \in rel)
+CtxOf(rel) == [P |-> Prob, keys |-> RelKeys(rel)]
+KeyDom(k, V) ==
+   IF V = "P" /\ k[1] \in Static THEN {InitOf(Prob, k)} ELSE DomVals(Fl(Prob, k[1]).type)
 RECURSIVE StatesUpTo(_,_,_)
-StatesUpTo(i, rel, V) ==
+StatesUpTo(ks, i, V) ==
    IF i = 0 THEN {<<>>}
-   ELSE {Append(s, v) : s \in StatesUpTo(i - 1, rel, V), v \in KeyDom(i, rel, V)}
-States(rel, V) == StatesUpTo(Len(Keys), rel, V)
+   ELSE {Append(s, v) : s \in StatesUpTo(ks, i - 1, V), v \in KeyDom(ks[i], V)}
+States(rel, V) == LET ks == RelKeys(rel) IN StatesUpTo(ks, Len(ks), V)
 
 RECURSIVE ParamNames(_)
 ParamNames(e) == (IF e.op = "param" THEN {e.name} ELSE {}) \cup UNION {ParamNames(e.args[i]) : i \in DOMAIN e.args}
@@ -82,17 +84,19 @@ Subterms(e) == {e} \cup UNION {Subterms(e.args[i]) : i \in DOMAIN e.args}
 \* some division of e has a divisor that is 0 (or undefined) under every valuation
 HasZeroDiv(e) ==
    \E d \in {t \in Subterms(e) : t.op = "div"} :
-      LET rel == FluentNames(d.args[2]) IN
-      \A s \in States(rel, "E") : \A en \in EnvsFor(d.args[2], d.args[2]) :
-         LET v == Eval(Ctx, d.args[2], s, en) IN IsU(v) \/ VEq(v, ZERO)
+      LET rel == FluentNames(d.args[2])
+          R   == CtxOf(rel)
+      IN \A s \in States(rel, "E") : \A en \in EnvsFor(d.args[2], d.args[2]) :
+            LET v == Eval(R, d.args[2], s, en) IN IsU(v) \/ VEq(v, ZERO)
 
 \* the valuations on which e and r have different (defined) values
 Diff(e, r, V) ==
-   LET rel == FluentNames(e) \cup FluentNames(r) IN
-   {w \in States(rel, V) \X EnvsFor(e, r) :
-       LET a == Eval(Ctx, e, w[1], w[2])
-           b == Eval(Ctx, r, w[1], w[2])
-       IN ~IsU(a) /\ ~IsU(b) /\ ~VEq(a, b)}
+   LET rel == FluentNames(e) \cup FluentNames(r)
+       R   == CtxOf(rel)
+   IN {w \in States(rel, V) \X EnvsFor(e, r) :
+          LET a == Eval(R, e, w[1], w[2])
+              b == Eval(R, r, w[1], w[2])
+          IN ~IsU(a) /\ ~IsU(b) /\ ~VEq(a, b)}
 
 \* features that go into the violation signature
 RECURSIVE JoinOps(_,_)
@@ -116,8 +120,14 @@ ElimAt(t) ==
          LET c == t.args[1].args[i] IN
          /\ c.op = "eq"
          /\ \E j \in {1, 2} : c.args[j].op = "var" /\ c.args[j].name \in BoundNames(t) /\ c.args[3 - j] # c.args[j]
+\* a subtraction of a negative constant term (no fluent, parameter or variable) from a non-constant term
+Closed(t) == FluentNames(t) = {} /\ ParamNames(t) = {} /\ FreeVars(t) = {}
+NegMinusAt(t) ==
+   /\ t.op = "minus" /\ Closed(t.args[2]) /\ ~Closed(t.args[1])
+   /\ LET v == Eval(CtxOf({}), t.args[2], <<>>, [q |-> OV(First), x |-> OV(First)]) IN v.k = "n" /\ RLt(v, ZERO)
 Feature(e) == IF \E t \in Subterms(e) : SelfEqAt(t) THEN "exists-self-eq"
               ELSE IF \E t \in Subterms(e) : ElimAt(t) THEN "exists-elim"
+              ELSE IF \E t \in Subterms(e) : NegMinusAt(t) THEN "minus-neg-const"
               ELSE Shape(e)
 
 ValStr(w) == ToString(w[1]) \o " q=" \o w[2].q.o \o " x=" \o w[2].x.o
@@ -127,17 +137,17 @@ JudgeV(c, V) ==
    LET o  == IF V = "E" THEN c.E ELSE c.P
        e  == Tab[c.e0].e
    IN IF c.built.k # "ok"
-      THEN (IF c.built.exc = "ZeroDivisionError" /\ HasZeroDiv(e) THEN {<<"U", "build-divzero", "", "">>}
+      THEN (IF HasZeroDiv(e) THEN {<<"U", "build-divzero", "", "">>}
             ELSE {<<"M", "build-" \o c.built.exc, "", "">>})
       ELSE IF o.k # "ok"
-      THEN (IF o.exc = "ZeroDivisionError" /\ HasZeroDiv(e) THEN {<<"U", "divzero", "", "">>}
+      THEN (IF HasZeroDiv(e) THEN {<<"U", "divzero", "", "">>}
             ELSE {<<"F", "raises-" \o o.exc, Feature(e), "">>})
       ELSE LET r == Tab[o.r].e
                d == IF r = e THEN {} ELSE Diff(e, r, V)
            IN (IF FreeVars(r) \subseteq FreeVars(e) THEN {} ELSE {<<"F", "freevars", Feature(e), "">>})
               \cup (IF d = {} THEN {} ELSE {<<"F", "meaning", Feature(e), ValStr(CHOOSE w \in d : TRUE)>>})
               \cup (IF o.rr.k # "ok"
-                    THEN (IF o.rr.exc = "ZeroDivisionError" /\ HasZeroDiv(r) THEN {<<"U", "divzero-2", "", "">>}
+                    THEN (IF HasZeroDiv(r) THEN {<<"U", "divzero-2", "", "">>}
                           ELSE {<<"F", "idempotent-raises-" \o o.rr.exc, Feature(e), "">>})
                     ELSE IF Tab[o.rr.r].e # r THEN {<<"F", "idempotent", Feature(e), "">>} ELSE {})
 
@@ -188,10 +198,10 @@ BJudgeV(c, V) ==
    LET o == IF V = "E" THEN c.E ELSE c.P
        e == BTab[c.e0].e
    IN IF c.built.k # "ok"
-      THEN (IF c.built.exc = "ZeroDivisionError" /\ BHasZeroDiv(e) THEN {<<"U", "build-divzero", "", "">>}
+      THEN (IF BHasZeroDiv(e) THEN {<<"U", "build-divzero", "", "">>}
             ELSE {<<"M", "build-" \o c.built.exc, "", "">>})
       ELSE IF o.k # "ok"
-      THEN (IF o.exc = "ZeroDivisionError" /\ BHasZeroDiv(e) THEN {<<"U", "divzero", "", "">>}
+      THEN (IF BHasZeroDiv(e) THEN {<<"U", "divzero", "", "">>}
             ELSE {<<"F", "big-raises-" \o o.exc, BShape(e), "">>})
       ELSE LET r == BTab[o.r].e
                d == {val \in BigEnvs(BFluents(e) \cup BFluents(r)) :
@@ -209,10 +219,19 @@ Init == /\ \/ kind = "s" /\ cid \in DOMAIN Cases
            \/ kind = "b" /\ cid \in DOMAIN BCases
         /\ res = <<"todo">>
 Tag(S, V) == {<<t[1], V, t[2], t[3], t[4]>> : t \in S}
+\* the two variants get the same verdict when their observations are identical and no static fluent
+\* occurs (the valuation sets then coincide): judged once
+SameObs(c, e, r) == c.P = c.E /\ (FluentNames(e) \cup FluentNames(r)) \cap Static = {}
+JudgeBoth(c) ==
+   LET je == JudgeV(c, "E") IN
+   Tag(je, "E") \cup (IF SameObs(c, Tab[c.e0].e, Tab[c.E.r].e) THEN Tag(je, "P") ELSE Tag(JudgeV(c, "P"), "P"))
+BJudgeBoth(c) ==
+   LET je == BJudgeV(c, "E") IN
+   Tag(je, "E") \cup (IF c.P = c.E THEN Tag(je, "P") ELSE Tag(BJudgeV(c, "P"), "P"))
 Next == /\ res = <<"todo">>
         /\ res' = IF kind = "s"
-                  THEN <<"done", Tag(JudgeV(Cases[cid], "E"), "E") \cup Tag(JudgeV(Cases[cid], "P"), "P")>>
-                  ELSE <<"done", Tag(BJudgeV(BCases[cid], "E"), "E") \cup Tag(BJudgeV(BCases[cid], "P"), "P")>>
+                  THEN <<"done", JudgeBoth(Cases[cid])>>
+                  ELSE <<"done", BJudgeBoth(BCases[cid])>>
         /\ UNCHANGED <<kind, cid>>
 Spec == Init /\ [][Next]_vars
 
